@@ -330,9 +330,12 @@ func parent(prop, tier string) int {
 	if len(agg.Inconclusive) > 0 {
 		cov["inconclusive"] = agg.Inconclusive
 	}
+	assumptions := append([]string{}, m.Assumptions...)
+	assumptions = append(assumptions, "cosmos-sdk (baseapp, bank, auth, staking), tendermint types and the Go runtime are trusted; the oracle code is independent of the repository's arithmetic",
+		"verdict is about the executions explored by this seed and tier only")
 	ev := map[string]interface{}{
 		"property_id": prop, "tier": tier, "seed": seed, "level": m.Level, "coverage": cov,
-		"assumptions": m.Assumptions, "wall_s": time.Since(start).Seconds(), "violations": len(unknown),
+		"assumptions": assumptions, "wall_s": time.Since(start).Seconds(), "violations": len(unknown),
 	}
 	b, _ := json.MarshalIndent(ev, "", " ")
 	os.MkdirAll(filepath.Join(verifDir, "evidence"), 0o755)
